@@ -6,7 +6,7 @@ From Coq Require Import ZArith Bool.
 From PV Require Import Base.Common Base.IR Base.Bits Model.Lower Proofs.LowerProofs.
 From PV Require Model.Cfg Proofs.CfgProofs Model.Syntax Model.LabelScope.
 From PV Require Model.Layout Model.MemLower Proofs.MemLowerProofs.
-From PV Require Model.Autoderef Proofs.AutoderefProofs.
+From PV Require Model.Autoderef Proofs.AutoderefProofs Model.AssignSteps Proofs.AssignStepsProofs Model.CallFrame.
 From Coq Require Import List.
 Open Scope Z_scope.
 
@@ -219,3 +219,37 @@ Theorem C01_memory_steps_are_the_typers : forall t p rs t',
     map AutoderefProofs.rstep_of_tstep taken = map AutoderefProofs.forget_index rs.
 Proof. exact AutoderefProofs.elaborate_is_autoderef. Qed.
 Print Assumptions C01_memory_steps_are_the_typers.
+
+(* The TARGET of an assignment is elaborated by another function of the typer (analyze_assignment_steps,
+   Model/AssignSteps.v) than a reference that is read (Reference::autoderef): for every reference that fits its
+   type, within the limits (runs of at most MAX_ADDRESS_DEPTH pointers, no array-like placeholders), both take
+   THE SAME steps and reach the same type - a read and a write of one reference denote one location - and with
+   no `&` written the target is followed by exactly as many Autoderefs as it has pointer levels: the scalar. *)
+Theorem C01_assignment_steps_are_read_steps : forall mt known steps,
+  Autoderef.fits mt known steps = true ->
+  AutoderefProofs.steps_within steps ->
+  AssignStepsProofs.types_within_assign mt known ->
+  AssignStepsProofs.arraylike_free mt known ->
+  exists taken ct,
+    Autoderef.autoderef_loop mt Autoderef.max_num_autoderef_steps known steps = Autoderef.LoopDone taken ct [] /\
+    AssignSteps.assign_loop mt known steps = AssignSteps.AsgAt taken ct /\
+    Autoderef.apply_tsteps mt known taken = Some ct /\
+    Autoderef.ref_final mt (Autoderef.fully_dereferenced known) steps = Some (Autoderef.fully_dereferenced ct).
+Proof. exact AssignStepsProofs.assignment_steps_are_read_steps. Qed.
+
+(* CallFrame's reading of assignment targets (MemLower.elaborate plus trailing Autoderefs) is what the typer
+   does: the memory theorem of C08 speaks about the real elaboration *)
+Theorem C01_frame_assignment_targets_are_the_typers : forall t p ad rs tfin,
+  AutoderefProofs.struct_free t = true ->
+  Autoderef.runs_ok AssignSteps.max_address_depth_nat (AutoderefProofs.vt_of_pty t) = true ->
+  CallFrame.elab_assign t p ad = Some (rs, tfin) ->
+  exists taken ct,
+    AssignSteps.assign_loop AutoderefProofs.no_members (AutoderefProofs.vt_of_pty t) (map AutoderefProofs.astep_of_step p) = AssignSteps.AsgAt taken ct /\
+    AssignSteps.assignment_steps AutoderefProofs.no_members (AutoderefProofs.vt_of_pty t) (map AutoderefProofs.astep_of_step p) (BinNat.N.of_nat ad)
+    = AssignSteps.AOk (taken ++ repeat Autoderef.TAutoderef (BinNat.N.to_nat (BinNat.N.sub (Autoderef.pointer_depth ct) (BinNat.N.of_nat ad)))) 0 /\
+    map AutoderefProofs.rstep_of_tstep (taken ++ repeat Autoderef.TAutoderef (BinNat.N.to_nat (BinNat.N.sub (Autoderef.pointer_depth ct) (BinNat.N.of_nat ad))))
+    = map AutoderefProofs.forget_index rs /\
+    AutoderefProofs.vt_of_pty tfin = AssignSteps.strip_pointers_n (BinNat.N.to_nat (BinNat.N.sub (Autoderef.pointer_depth ct) (BinNat.N.of_nat ad))) ct.
+Proof. exact AssignStepsProofs.elab_assign_is_assignment_steps. Qed.
+Print Assumptions C01_assignment_steps_are_read_steps.
+Print Assumptions C01_frame_assignment_targets_are_the_typers.
